@@ -3,7 +3,7 @@ import json, os, copy, base64, binascii, collections
 import vlib
 from vlib import Infra, log
 
-RULE = ("S->C: TLC enumerates the decision table of TonConnect_Gen (3 key sources x 17 wallet contracts x 36 single tamperings x 5 times) "
+RULE = ("S->C: TLC enumerates the decision table of TonConnect_Gen (3 key sources x 17 wallet contracts x 52 single tamperings x 5 times) "
         "into abstract cases with the verdict TonConnect!Decide requires; the harness concretises each (keys from seeds, state-inits "
         "from the wallet package, CreateSignedProof, mock executor) and runs the real Server.CheckProof under recover(); required: "
         "verdict (ok, key, error) equal to the table's, no panic. C->S: every concrete proof (table cases, random single-field "
@@ -19,6 +19,11 @@ TCLASS = {"none": "valid", "si_no_code": "no_code_or_data", "si_no_data": "no_co
           "si_other": "state_init_of_other_key", "si_attacker": "state_init_and_signature_of_other_key", "si_unknown_code": "unknown_code", "si_short_data": "short_data",
           "si_multi_root": "multi_root_boc", "si_garbage": "garbage_boc", "si_truncated": "truncated_boc", "si_bad_b64": "bad_base64",
           "si_empty": "no_state_init"}
+# one input class: the presented address differs from the signed one in the workchain only
+TCLASS.update({t: "workchain_only" for t in ("workchain", "wc_plus256", "wc_minus256", "wc_plus512", "wc_plus65536", "wc_minus65536",
+                                             "wc_plus16777216", "wc_int32_max", "wc_int32_min")})
+# one input class: a bag with stored hashes whose stored value is not the hash of the content it labels
+TCLASS.update({t: "stored_hash_not_content_hash" for t in ("sih_root_claims_victim", "sih_all_claims_victim", "sih_code_claims_wallet")})
 NSHARD = max(2, min(14, vlib.NCPU - 2))
 
 
@@ -111,7 +116,7 @@ def gen_vectors(ck):
             vecs.append(w)
     # vacuity: the table must contain every key source, contract, tampering, and all three verdict classes
     dims = {d: {v[d] for v in rows} for d in ("src", "ver", "tamper", "time")}
-    if len(dims["src"]) != 3 or len(dims["ver"]) != 17 or len(dims["tamper"]) < 36 or len(dims["time"]) != 5:
+    if len(dims["src"]) != 3 or len(dims["ver"]) != 17 or len(dims["tamper"]) < 52 or len(dims["time"]) != 5:
         raise Infra("decision table incomplete: %s" % {k: len(x) for k, x in dims.items()})
     if {v["want"]["v"] for v in rows} != {"accept", "reject", "free"}:
         raise Infra("decision table lacks a verdict class")
@@ -255,7 +260,7 @@ def run(ck):
                 fa, fb = row["f"], n["f"]
                 diff = {k: (fa[k], fb[k]) for k in FACT_FIELDS if fa[k] != fb[k]}
                 # the code cell the wallet package puts into a state-init of version V must be the published contract V
-                if fb["siCode"] and row["tamper"] not in ("address", "si_unknown_code") and fb["siVersion"] != row["ver"]:
+                if fb["siCode"] and row["tamper"] not in ("address", "si_unknown_code", "sih_code_claims_wallet") and fb["siVersion"] != row["ver"]:
                     ck.report("C19:wallet_code:%s:not_the_published_contract" % row["ver"], "the state-init the wallet package builds for %s carries a code "
                               "cell whose hash is that of %s in the list of published wallet contracts" % (row["ver"], fb["siVersion"]),
                               {"kind": "event", "direction": "C->S", "event": e})
@@ -265,8 +270,11 @@ def run(ck):
                 if not same:
                     # a signature the table expects to be valid (made by CreateSignedProof) that is not valid over the message
                     # TON Connect prescribes: if the code itself accepts such a proof, signer and verifier share a wrong layout
-                    sigonly = diff and set(diff) <= {"sigChain", "sigSi"} and all(a and not b for a, b in diff.values())
-                    if sigonly and row["tamper"] == "none" and e["go"]["ok"]:
+                    # (once CreateSignedProof is known to sign another message than the prescribed one, a tampered proof may as well
+                    # turn out valid over the prescribed message: signature facts of either polarity are then attributed to that)
+                    sigonly = diff and set(diff) <= {"sigChain", "sigSi"}
+                    lost = sigonly and all(a and not b for a, b in diff.values())
+                    if lost and row["tamper"] == "none" and e["go"]["ok"]:
                         layout_broken.append(e)
                         ck.report("C19:message_layout:honest_signature_invalid_under_spec_message",
                                   "a proof made by CreateSignedProof and accepted by CheckProof does not verify (EdVerify) over the message "
